@@ -541,6 +541,13 @@ def negotiate_unrestricted(
     non_storage_contexts: list[PresentationContext] = []
     reply_roles: dict[UID, SCP_SCU_RoleSelectionNegotiation] = {}
     storage_uids = _STORAGE_CLASSES.values()
+    # The UIDs of the known SOP classes - the names pynetdicom uses for
+    #   them may differ from the pydicom UID keywords
+    known_uids = {
+        obj
+        for obj in vars(SOP_CLASS_MODULE).values()
+        if isinstance(obj, SOP_CLASS_MODULE.SOPClass)
+    }
 
     # Split out private/unknown/storage cx's from everything else
     for cx in rq_contexts:
@@ -548,7 +555,7 @@ def negotiate_unrestricted(
         if (
             ab_syntax.is_private
             or ab_syntax in storage_uids
-            or not hasattr(SOP_CLASS_MODULE, ab_syntax.keyword)
+            or ab_syntax not in known_uids
         ):
             storage_contexts.append(cx)
         else:
